@@ -223,6 +223,21 @@ CLAIMED["C07"] = dict(
          "the bound (n, m <= 2 symbolic; <= 3 x 3 / 6 x 6 concrete) is stated. One defect fixed in /repo (645b804: zero-affinity pairs).",
     technique=TECH + ", bounded in list length (n, m <= 2); exhaustive stand-in",
 )
+CLAIMED["C08"] = dict(
+    level="other",
+    text="Deductive, unbounded: iterate_over_valid_clips (exactly the predicted clips that are annotated, in order, paired by clip "
+         "id), classification_score, evaluate_sound_event. Deductive but BOUNDED in list sizes (labelled bounded, not counted as "
+         "proved): the real evaluate_clip for all numbers of annotated x predicted events up to 2 x 1 / 1 x 2 (quick) and 2 x 2 "
+         "(thorough), geometry presence symbolic, against the full per-clip statement, with match_geometries, the encoders, "
+         "compute_affinity, _mean and classification_score seen only through their contracts (C07, C19, C06, this property). "
+         "The whole task including the clip pairing and score means end to end is decided by the bounded stand-in detection_small "
+         "(clips <= 3, events <= 3 + 3, geometry-less events, vocabulary 3) against an independent reference.",
+    note="Four defects found by the stand-in were fixed in /repo (14d1302 indices into the unfiltered lists / geometry-less events "
+         "dropped, b13c0a8 constant affinity 1, 57f20ee IndexError with nothing to evaluate, 6a20f58 mean_average_precision on "
+         "all-unlabelled input). Unbounded event counts would need a loop summary over a contract-given list of index triples; "
+         "the bound is stated. The top-level glue (_evaluate_clips, score mean over clips) is covered by the stand-in only.",
+    technique=TECH + ", bounded in list length for evaluate_clip; callee contracts from C06/C07/C19; exhaustive stand-in",
+)
 ALL = [f"C{n:02d}" for n in range(1, 21)]
 NOT_APPLICABLE = {p: "check not built yet in this session (work in progress; see DESIGN.md section 12 build order)"
                   for p in ALL if p not in CLAIMED}
